@@ -241,6 +241,25 @@ Proof.
 Qed.
 Print Assumptions C05_inline_cells_den.
 
+(* which transformation a FILL / *FILL / TRCL / *TRCL keyword yields (tokens abstract): whenever
+   at least one number is written - a TR number whose card is not empty, three numbers even if
+   all zero, or more - the result is never the empty tuple, so pot_fill's truthiness test takes
+   it for the explicit fill transformation it is (place_filler: FILL transformation before
+   TRCL); a FILL keyword without numbers, starred or not, yields () and pot_fill falls back to
+   the container's TRCL *)
+Theorem C05_explicit_transformation_not_empty :
+  forall is_fill star trid params table,
+  (forall k c, dget k table = Some c -> c <> []) ->
+  (params <> [] ->
+   forall l, parse_tr_params is_fill star trid params table = Ok (TSList l) -> l <> []) /\
+  parse_tr_params true star trid [] table = Ok (TSList []).
+Proof.
+  intros is_fill star trid params table Htab. split.
+  - intros Hne l H. exact (parse_tr_params_explicit is_fill star trid params table l Hne Htab H).
+  - apply parse_tr_params_fill_none.
+Qed.
+Print Assumptions C05_explicit_transformation_not_empty.
+
 (* non-vacuity: the executable instance of the correspondence check obeys both laws (points on a
    line), and a deck with two levels of universes (fill transformation at level 0, TRCL-only
    fill at level 1) satisfies every hypothesis above; the point x = 9 is located along
